@@ -88,8 +88,26 @@ def takeDigits : Bytes → Bytes × Bytes
   | [] => ([], [])
   | b :: bs => if isDigit b then let (d, r) := takeDigits bs; (b :: d, r) else ([], b :: bs)
 
+/-- strconv's `underscoreOK` for text without a base prefix: every underscore separates two digits. -/
+def underscoreOK (s : Bytes) : Bool :=
+  let body := match s with
+    | 45 :: r => r
+    | 43 :: r => r
+    | r => r
+  -- saw: 0 = beginning, 1 = digit, 2 = underscore, 3 = anything else
+  let rec go : Bytes → Nat → Bool
+    | [], saw => saw != 2
+    | b :: bs, saw =>
+      if isDigit b then go bs 1
+      else if b == 95 then (if saw != 1 then false else go bs 2)
+      else if saw == 2 then false
+      else go bs 3
+  go body 0
+
 /-- `strconv.ParseFloat(s, 64)` for decimal text, `inf`/`infinity`/`nan`. -/
-def parse (s : Bytes) : Parsed :=
+def parse (s0 : Bytes) : Parsed :=
+  let hasUnderscore := s0.any (· == 95)
+  let s := if hasUnderscore then s0.filter (· != 95) else s0
   let (neg, hasSign, body) := match s with
     | 45 :: r => (true, true, r)
     | 43 :: r => (false, true, r)
@@ -97,7 +115,8 @@ def parse (s : Bytes) : Parsed :=
   let hexPrefix := match body with
     | 48 :: x :: _ => lower x == 120
     | _ => false
-  if s.any (· == 95) || hexPrefix then .unmodelled else
+  if hexPrefix then .unmodelled
+  else if hasUnderscore && !underscoreOK s0 then .syntax else
   if eqIgnoreCase body "inf" || eqIgnoreCase body "infinity" then .ok (if neg then negInf else posInf)
   else if !hasSign && eqIgnoreCase body "nan" then .ok goNaN
   else
